@@ -88,10 +88,22 @@ def sp(rng):
 
 
 ALLOW_DEPRECATED = [True]
+# layout choices forced by the operator x key grid: reverse = literal first with the inverted operator; dep = index of the deprecated spelling
+FORCE = {'reverse': None, 'dep': None}
+
+
+def fwd(rng):
+    if FORCE['reverse'] is not None:
+        return not FORCE['reverse']
+    return rng.random() < .7
 
 
 def spelling(rng, key):
     d = DEPR.get(key)
+    if FORCE['dep'] is not None:
+        if FORCE['dep'] is False or not d:
+            return key
+        return (d if isinstance(d, list) else [d])[FORCE['dep'] % len(d if isinstance(d, list) else [d])]
     if d and ALLOW_DEPRECATED[0] and rng.random() < .25:
         return rng.choice(d) if isinstance(d, list) else d
     return key
@@ -117,7 +129,7 @@ def render(rng, a, top=True):
     if k == 'ver':
         _, key, op, lit = a
         q = quote(rng, lit)
-        if lit.endswith('.*') or rng.random() < .7:
+        if lit.endswith('.*') or fwd(rng):
             return '%s%s%s%s%s' % (key, sp(rng), op, sp(rng), q)
         return '%s%s%s%s%s' % (q, sp(rng), INV[op], sp(rng), key)
     if k == 'verin':
@@ -128,7 +140,7 @@ def render(rng, a, top=True):
         q = quote(rng, val)
         if q is None:
             return None
-        if rng.random() < .7:
+        if fwd(rng):
             return '%s%s%s%s%s' % (spelling(rng, key), sp(rng), op, sp(rng), q)
         return '%s%s%s%s%s' % (q, sp(rng), INV[op], sp(rng), spelling(rng, key))
     if k == 'in':
@@ -142,14 +154,22 @@ def render(rng, a, top=True):
     if k == 'extra':
         _, neg, name = a
         q = quote(rng, name)
-        if rng.random() < .7:
+        if fwd(rng):
             return 'extra%s%s%s%s' % (sp(rng), '!=' if neg else '==', sp(rng), q)
         return '%s%s%s%sextra' % (q, sp(rng), '!=' if neg else '==', sp(rng))
+
+
+MODERN = {}
+for _k, _d in DEPR.items():
+    for _x in (_d if isinstance(_d, list) else [_d]):
+        MODERN[_x] = _k
 
 
 def py_sem(a, env, extras, norm):
     """the text read directly (independent of the crate and of the Coq model)"""
     k = a[0]
+    if k in ('str', 'in', 'contains') and a[1] in MODERN:
+        a = (k, MODERN[a[1]]) + tuple(a[2:])
     if k == 'and':
         return py_sem(a[1], env, extras, norm) and py_sem(a[2], env, extras, norm)
     if k == 'or':
@@ -263,12 +283,38 @@ def run(ctx):
         battery.append(('and', ('or', x, y), ('or', nx, z)))
         battery.append(('or', ('and', x, flip_leaf(y)), ('and', nx, y)))
         battery.append(('and', ('ver', 'python_version', '>=', '3.8'), ('or', ('and', x, y), ('and', nx, z))))
+    # operator x key grid: every key of every kind (each deprecated spelling too) with every operator it takes, in both operand orders;
+    # version keys against plain, post-release, pre-release and epoch literals
+    forced = {}
+    def grid(a, **f):
+        forced[len(battery)] = f
+        battery.append(a)
+    for key in VKEYS:
+        for op in OPMAP:
+            for lit in ('3.8', '3.8.1', '3.8.post1', '1!3.8', '3.8a1'):
+                for rev in (False, True):
+                    grid(('ver', key, op, lit), reverse=rev, dep=False)
+    for key in SKEYS:
+        nd = len(DEPR[key]) if isinstance(DEPR.get(key), list) else (1 if key in DEPR else 0)
+        # a deprecated spelling is a key of its own in the diagram (same environment field): it enters the tree under its own name
+        for spelled in [key] + ((DEPR[key] if isinstance(DEPR[key], list) else [DEPR[key]]) if nd else []):
+            for rev in (False, True):
+                for op in ('==', '!=', '<', '<=', '>', '>='):
+                    grid(('str', spelled, op, 'posix'), reverse=rev, dep=False)
+            for neg in (False, True):
+                grid(('in', spelled, 'posix nt', neg), reverse=False, dep=False)
+                grid(('contains', spelled, 'os', neg), reverse=False, dep=False)
+    for neg in (False, True):
+        for rev in (False, True):
+            grid(('extra', neg, 'A_b'), reverse=rev, dep=False)
     for bi in range(len(battery) + n_trees):
         a = battery[bi] if bi < len(battery) else gen_ast(ctx.rng, ctx.rng.choice([0, 1, 1, 2, 2, 3]))
         texts = []
         for i in range(3 if bi >= len(battery) else 1):
             ALLOW_DEPRECATED[0] = i > 0
+            FORCE.update(forced.get(bi, {'reverse': None, 'dep': None}))
             t = render(ctx.rng, a)
+            FORCE.update({'reverse': None, 'dep': None})
             if t is not None:
                 texts.append(t)
         if not texts:
